@@ -7,6 +7,7 @@ import (
 	"fmt"
 	"go/types"
 	"math"
+	"regexp"
 	"sort"
 	"strconv"
 	"strings"
@@ -153,7 +154,7 @@ func (ex *Exec) toGo(v Value) (interface{}, bool) {
 		}
 		// error / Stringer: render through Error()/String()
 		for _, m := range []string{"Error", "String"} {
-			if f := ex.eng.prog.LookupMethod(x.t, nil, m); f != nil && f.Signature.Params().Len() == 0 {
+			if f := ex.eng.lookupMethod(x.t, nil, m); f != nil && f.Signature.Params().Len() == 0 {
 				var res Value
 				okc := true
 				func() {
@@ -219,13 +220,13 @@ func (ex *Exec) errorsIs(err, target Value) bool {
 				return true
 			}
 		}
-		if m := ex.eng.prog.LookupMethod(e.t, nil, "Is"); m != nil && m.Signature.Params().Len() == 1 {
+		if m := ex.eng.lookupMethod(e.t, nil, "Is"); m != nil && m.Signature.Params().Len() == 1 {
 			r := ex.callSSA(nil, m, []Value{e.v, t}, nil)
 			if rt, ok := r.(*Term); ok && ex.branch(rt) {
 				return true
 			}
 		}
-		m := ex.eng.prog.LookupMethod(e.t, nil, "Unwrap")
+		m := ex.eng.lookupMethod(e.t, nil, "Unwrap")
 		if m == nil {
 			// pkg/errors: Cause
 			return false
@@ -453,7 +454,7 @@ func buildStubs() map[string]stubFn {
 		if e.t == nil {
 			return IfaceV{}
 		}
-		mm := ex.eng.prog.LookupMethod(e.t, nil, "Unwrap")
+		mm := ex.eng.lookupMethod(e.t, nil, "Unwrap")
 		if mm == nil {
 			return IfaceV{}
 		}
@@ -472,7 +473,7 @@ func buildStubs() map[string]stubFn {
 				n := ex.sliceLen(s)
 				for i := int64(0); i < n; i++ {
 					if iv, ok := (*s.elem(i)).(IfaceV); ok && iv.t != nil {
-						if ex.eng.prog.LookupMethod(iv.t, nil, "Error") != nil {
+						if ex.eng.lookupMethod(iv.t, nil, "Error") != nil {
 							wrapped = iv
 						}
 					}
@@ -1476,21 +1477,44 @@ func buildStubs() map[string]stubFn {
 	m["regexp.Compile"] = func(ex *Exec, c *frame, fn *ssa.Function, a []Value) Value {
 		expr := a[0].(*StrV)
 		p := new(Value)
-		*p = &Opaque{kind: "regexp", data: &absRegexp{expr: expr.String(), memo: map[string]*Term{}}}
+		ar := &absRegexp{expr: expr.String()}
+		if cs, ok := expr.conc(); ok {
+			re, err := regexp.Compile(cs)
+			if err != nil {
+				return Tuple{(*Value)(nil), ex.errorValue(err.Error())}
+			}
+			ar.re = re
+		}
+		*p = &Opaque{kind: "regexp", data: ar}
 		return Tuple{p, ex.nilError()}
+	}
+	m["regexp.MustCompile"] = func(ex *Exec, c *frame, fn *ssa.Function, a []Value) Value {
+		r := m["regexp.Compile"](ex, c, fn, a).(Tuple)
+		if e := r[1].(IfaceV); e.t != nil {
+			panic(targetPanic{v: e, msg: "regexp: Compile failed"})
+		}
+		return r[0]
+	}
+	reMatch := func(ex *Exec, re *absRegexp, key *StrV) Value {
+		if re.re != nil {
+			if ck, ok := key.conc(); ok {
+				return ex.tc.Bool(re.re.MatchString(ck))
+			}
+		}
+		return ex.absMatch(re, key.String())
 	}
 	m["(*regexp.Regexp).Match"] = func(ex *Exec, c *frame, fn *ssa.Function, a []Value) Value {
 		re := (*(a[0].(*Value))).(*Opaque).data.(*absRegexp)
 		s, _ := a[1].(*SliceV)
-		key := ""
+		key := &StrV{}
 		if !s.isNil() {
-			key = (&StrV{b: ex.bytesOf(s)}).String()
+			key = &StrV{b: ex.bytesOf(s)}
 		}
-		return ex.absMatch(re, key)
+		return reMatch(ex, re, key)
 	}
 	m["(*regexp.Regexp).MatchString"] = func(ex *Exec, c *frame, fn *ssa.Function, a []Value) Value {
 		re := (*(a[0].(*Value))).(*Opaque).data.(*absRegexp)
-		return ex.absMatch(re, a[1].(*StrV).String())
+		return reMatch(ex, re, a[1].(*StrV))
 	}
 
 	return m
@@ -1498,7 +1522,7 @@ func buildStubs() map[string]stubFn {
 
 type absRegexp struct {
 	expr string
-	memo map[string]*Term
+	re   *regexp.Regexp // concrete expression: the real engine decides concrete keys
 }
 
 func (ex *Exec) absMatch(re *absRegexp, key string) *Term {
@@ -1510,7 +1534,7 @@ func (ex *Exec) absMatch(re *absRegexp, key string) *Term {
 	if t, ok := memo[k]; ok {
 		return t
 	}
-	t := ex.newInput("bool", "match_"+key, 0)
+	t := ex.newInput("env", "match_"+key, 0)
 	memo[k] = t
 	return t
 }
